@@ -40,6 +40,10 @@ func stateAnnotation(s *Scanner, c byte) *jerr.JApiError {
 func stateMultilineAnnotationTextStart(s *Scanner, c byte) *jerr.JApiError {
 	s.foundAt(s.curIndex, AnnotationBegin)
 	s.step = stateMultilineAnnotation
+	if c == AnnotationDelimiterPart {
+		// "/*/": this slash cannot close the annotation, the preceding star is the one that opened it
+		return nil
+	}
 	return stateMultilineAnnotation(s, c)
 }
 
